@@ -5,6 +5,7 @@ import (
 	"os"
 	"strings"
 
+	"dcverif/internal/load"
 	"dcverif/internal/ssax"
 
 	"golang.org/x/tools/go/ssa"
@@ -58,4 +59,42 @@ func probe(c *Ctx) {
 		}
 	}
 	walk(fn)
+}
+
+func init() { Registry["PROBE2"] = probe2 }
+
+// probe2 lists map ranges and clock/random calls in functions reachable from the node's message handler and FSM callbacks.
+func probe2(c *Ctx) {
+	roots := []*ssa.Function{c.P.Func(pkgNode, "BaseNodeService", "processMessage"), c.P.Func(pkgNode, "BaseNodeService", "reinitDKG"), c.P.Func(pkgNode, "BaseNodeService", "Poll")}
+	seen := map[*ssa.Function]bool{}
+	cg := c.P.CallGraph()
+	var walk func(f *ssa.Function)
+	walk = func(f *ssa.Function) {
+		if f == nil || seen[f] {
+			return
+		}
+		seen[f] = true
+		if !load.InModule(f) {
+			return
+		}
+		ssax.Instrs(f, func(in ssa.Instruction) {
+			if rg, ok := in.(*ssa.Range); ok && strings.HasPrefix(rg.X.Type().Underlying().String(), "map[") {
+				fmt.Printf("MAPRANGE %s %s over %s\n", c.PosOf(in), load.FuncName(f), ssax.Path(rg.X))
+			}
+			if call, ok := in.(ssa.CallInstruction); ok {
+				id := ssax.FuncID(ssax.CalleeObj(call))
+				if id == "time.Now" || strings.HasPrefix(id, "math/rand.") || strings.HasPrefix(id, "crypto/rand.") || strings.HasPrefix(id, "github.com/google/uuid.") {
+					fmt.Printf("ENTROPY %s %s calls %s\n", c.PosOf(in), load.FuncName(f), id)
+				}
+			}
+		})
+		if n := cg.Nodes[f]; n != nil {
+			for _, e := range n.Out {
+				walk(e.Callee.Func)
+			}
+		}
+	}
+	for _, r := range roots {
+		walk(r)
+	}
 }
